@@ -25,6 +25,8 @@ def corpus():
         "c20 k_del_upd cbe=fs sbe=fs devs=2 hist=s0|c0:a|s0|s1|t:100|x0:a|t:200|u1:a|s0|s1|s0|s1|s0|s1",
         "c20 k_both_delete cbe=fs sbe=fs devs=2 hist=s0|c0:a|c0:b|s0|s1|t:100|x0:a|t:200|x1:a|s0|s1|s0|s1|s0|s1",
         "c20 k_move cbe=fs sbe=fs devs=2 hist=s0|s1|f0:1|c0:a|m0:a:1|s0|s1|u1:a|s1|s0|s1|s0",
+        "c20 k_archive_fav cbe=fs sbe=fs devs=2 hist=s0|c0:a|c0:c|s0|s1|a0:a|s0|s1|A1:a|x0:c|s0|s1|s0|o1|s1",
+        "c20 k_archive_del cbe=fs sbe=fs devs=2 hist=s0|c0:a|c0:c|c0:b|a0:c|a0:a|s0|s1|x1:c|u1:a|s1|s0|o0|s0",
     ]
 
 
@@ -33,6 +35,13 @@ def gen_cases(rng, tier):
     out = []
     for j in range(n):
         h = acct.gen_history(rng, 2, rng.randrange(6, 16), with_folders=(j % 2 == 0))
+        # archive / unarchive / reload ops sprinkled before the quiescent rounds (favourites and tags live on
+        # slots a, b, c; the archive folder is left out of the per-kind counters)
+        body = len(h) - 2 * acct.ROUNDS
+        for _ in range(rng.randrange(0, 4)):
+            d = rng.randrange(2)
+            op = rng.choice(["a%d:%s", "a%d:%s", "A%d:%s"]) % (d, rng.choice("abc")) if rng.random() < 0.8 else "o%d" % d
+            h.insert(rng.randrange(2, max(3, body)), op)
         out.append("c20 g%d cbe=%s sbe=fs devs=2 hist=%s" % (j, "db" if j % 4 == 1 else "fs", "|".join(h)))
     return out
 
@@ -59,8 +68,10 @@ def impl_projection(obs):
         t = o.split()
         if len(t) >= 4 and t[2] == "index":
             kv = dict(x.split("=", 1) for x in t[3:] if "=" in x)
-            vaults = ";".join(v for v in kv.get("vaults", "").split(";") if v and not v.endswith(":0"))
-            out.append("%s %s index docs=%s vaults=%s" % (t[0], t[1], kv.get("docs", ""), vaults))
+            nz = lambda s: ";".join(sorted(v for v in s.split(";") if v and not v.endswith(":0")))
+            out.append("%s %s index docs=%s vaults=%s kinds=%s favs=%s tags=%s" % (
+                t[0], t[1], kv.get("docs", ""), nz(kv.get("vaults", "")), nz(kv.get("kinds", "")),
+                kv.get("favs", "0"), nz(kv.get("tags", ""))))
     return out
 
 
@@ -79,6 +90,30 @@ def oracle(case, obs):
             for part in W["index"].get("vaults", "").split(";"):
                 if ":" in part:
                     f, n = part.rsplit(":", 1); counts[f] = int(n)
+            # favourites / tags / kinds recounted from what the folders serve (kinds leave out the archive folder)
+            favs = tags_n = 0
+            tagc, notes = {}, 0
+            for f, views in W["folders"].items():
+                served = acct.folder_fields(views.get("served", ""))
+                for it in served["items"]:
+                    body = it.split("#")
+                    favs += body[0].endswith("!")
+                    for tg in body[1:]:
+                        tagc[tg] = tagc.get(tg, 0) + 1
+                if not (int(served.get("flags", "0") or 0) & 4):
+                    notes += len(served["items"])
+            ix = W["index"]
+            got_t = dict((p.rsplit(":", 1)[0], int(p.rsplit(":", 1)[1])) for p in ix.get("tags", "").split(";") if ":" in p and not p.endswith(":0"))
+            got_k = sum(int(p.rsplit(":", 1)[1]) for p in ix.get("kinds", "").split(";") if ":" in p)
+            if "favs" in ix and int(ix["favs"]) != favs:
+                fails.append({"oracle": "index_favorites", "op": (S["op"] or "")[:1],
+                              "detail": "step %d (%s) %s: favourites counter %s, folders serve %d favourites" % (st, S["op"], who, ix["favs"], favs)})
+            if "tags" in ix and got_t != tagc:
+                fails.append({"oracle": "index_tags", "op": (S["op"] or "")[:1],
+                              "detail": "step %d (%s) %s: tag counters %s, folders serve %s" % (st, S["op"], who, got_t, tagc)})
+            if "kinds" in ix and got_k != notes:
+                fails.append({"oracle": "index_kinds", "op": (S["op"] or "")[:1],
+                              "detail": "step %d (%s) %s: kind counters total %d, %d secrets outside the archive folder" % (st, S["op"], who, got_k, notes)})
             for f, views in W["folders"].items():
                 served = acct.folder_fields(views.get("served", ""))
                 labels = sorted(x.split("=")[0] for x in served["items"])
